@@ -126,6 +126,20 @@ fn keys<C: Cs>(ctx: &Ctx, idx: u64, own_modulus_key: bool) {
         if let Some(mode) = json_modes(&sig) {
             ctx.violation("C18:roundtrip/signature/json", json!({"case":case,"mode":mode}));
         }
+        // the random exponent s of a signature has exactly ls bits, e exactly le bits (single- and multi-attribute signing)
+        for (single, sg) in [(false, Some(sig.clone())), (true, if n_attr >= 1 { Some(Signature::<CL03<C>>::sign(&pk, &sk, &bases, &msgs[0])) } else { None })] {
+            if let Some(sg) = sg {
+                let j = serde_json::to_value(&sg).unwrap();
+                for (p, v) in leaves(&j) {
+                    let want = if p.ends_with("/s") { Some(C::ls) } else if p.ends_with("/e") { Some(C::le) } else { None };
+                    if let Some(w) = want {
+                        if v.significant_bits() != w {
+                            ctx.violation("C18:signature-exponent-wrong-bit-length", json!({"case":case,"field":p,"bits":v.significant_bits(),"configured":w,"single_attribute_sign":single}));
+                        }
+                    }
+                }
+            }
+        }
         ctx.count("signatures_round_tripped", 1);
     }
     RECORDS.lock().unwrap().push(rec);
